@@ -1,7 +1,8 @@
 """C05 -- see DESIGN.md section 5.  Deductive targets are added below the bounded import."""
 PROP = "C05"
-LEVEL = "other"
-EXPLANATION = 'bounded stand-in: sequences of parse requests on one parser vs fresh parsers; argv list, raw args and format listings compared before/after'
+LEVEL = 'proof'
+EXPLANATION = ("Deductive: frame / read-set obligations of DefaultArgsParser decided on the AST of the working tree -- the parser's methods touch no attribute of the parser object other than the two scratch maps, parse() re-initialises both before any other use of the object, the token list is copied before it is consumed; ArgvArgs.__init__ works on fresh copies and leaves the caller's argv list unchanged (SMT).  Hence a parse is a function of (tokens, format, mode) for any history.  Bounded: sequences of parse requests on one parser vs fresh parsers (also through Command.parse with a shared configured parser), argv list / raw args / format listings compared before and after.")
+LEVEL_NOTE = ("assumes: the format's query methods do not modify the format (bounded: listings compared); the history lemma (init + re-initialisation => every parse starts from the same state) is the standard induction over these frames, not a machine-checked lemma")
 from .C05_structural import structural  # noqa: F401
 from . import token_contracts as tc
 TARGETS = [tc.M_ARGV + ":ArgvArgs.__init__"]
